@@ -61,3 +61,11 @@ prop("C01",
                   "asyncio.Lock mutual exclusion (assumed contract of the library primitive)",
                   "threaded class: 'configured number of requests' is read as 1 + retry_count transmissions (the engine counts re-transmissions, see C20)"],
      explanation="simulator chain by loop invariant; async get by two nested loop invariants (retry accounting, join(segments) = spa prefix) for every loss/dup/reorder pattern; threaded reassembly as a representation invariant preserved by every delivered segment; STATV/STATU codec shared with C04")
+
+prop("C05",
+     level="proof",
+     ground=[lexical.c05_lexical],
+     assumptions=["history clause by induction outside the solver: every operation (STATP message, refresh install) has a functional contract block' = op(block) that depends on no hidden state (buffer invariant proved), so a history is the composition of the per-operation contracts",
+                  "message well-formedness (STATP, count, 4-byte records, last record >= 2 bytes) is a precondition; STATQ datagrams arriving at the client are outside the property",
+                  "sequence numbers: contract of get_and_increment_sequence_counter(False) from C16 (assumed here, proved there)"],
+     explanation="per-message decode contract incl. stale-buffer independence, exactly one STATQ ack 1..191, per-record step contract of both apply loops (loop cut: one splice per record, in order), threaded buffer cleared; lexical atomicity of the async path")
